@@ -327,7 +327,7 @@ pub fn c15_pair_check(c: &C15Pair, info: &mut CaseInfo) -> Result<(), Fail> {
 }
 
 pub fn run_c14(ctx: &mut Ctx) {
-    let n = ctx.count(40_000, 1_500_000);
+    let n = ctx.count(300_000, 3_000_000);
     ctx.run("refill4-vs-refill", n, c14_strategy(), c14_check);
     ctx.required_classes.push("low-word carry inside refill4".into());
     ctx.required_classes.push("counter wraps 2^64".into());
@@ -335,9 +335,9 @@ pub fn run_c14(ctx: &mut Ctx) {
 }
 
 pub fn run_c15(ctx: &mut Ctx) {
-    let n = ctx.count(50_000, 1_500_000);
+    let n = ctx.count(300_000, 3_000_000);
     ctx.run("set-get-sequences", n, c15_seq_strategy(), c15_seq_check);
-    let n = ctx.count(60_000, 1_500_000);
+    let n = ctx.count(400_000, 4_000_000);
     ctx.run("stream-eq-pairs", n, c15_pair_strategy(), c15_pair_check);
     for d in 0..=14 {
         ctx.required_classes.push(format!("diff={}", d));
